@@ -1,7 +1,6 @@
 package main
 
 import (
-
 	"golang.org/x/tools/go/ssa"
 )
 
@@ -103,4 +102,3 @@ func iteState(c *Term, a, b State) State {
 	}
 	return out
 }
-
